@@ -498,8 +498,12 @@ class Explorer:
         class Cfg:
             __slots__ = ("S", "flags", "stack", "inst", "parent", "word", "step")
 
+        acc_summary = getattr(spec, "acc_summary", None)
+
         def ident(S, flags, stack, inst):
-            return (S, flags, tuple((e.state, e.summ.key() if isinstance(e.summ, Summ) else e.summ) for e in stack), inst)
+            # accumulator entries are collapsed to a constant - except for what the spec asks to keep of their value
+            return (S, flags, tuple((e.state, e.summ.key() if isinstance(e.summ, Summ) else
+                                     ((e.summ, acc_summary(e.sym, e.val)) if (acc_summary and e.summ is ACC) else e.summ)) for e in stack), inst)
 
         start = Cfg()
         start.S, start.flags, start.stack, start.inst = spec.eclose({spec.start}), self.lm.start, (Entry(0, None, None, "$"),), 0
